@@ -696,8 +696,15 @@ def _run_one(scratch, stats, markers, q, cfg, tag, cache=None):
     if qpath.exists():
         qpath.unlink()
     X = np.array(q['X'], dtype=np.dtype(q.get('dtype', 'float64')))
-    pipeline.write_h5ad(qpath, X, q['cell_ids'], q['genes'],
-                        encoding=q.get('encoding', 'dense'))
+    if q.get('perm_on_csr') is not None:
+        # the columns are permuted ON the csr matrix: the file keeps each
+        # row's column indices out of order (legal CSR; what scipy
+        # X[:, perm] / adata[:, genes].copy() produce)
+        U.write_h5ad_csr_permuted(qpath, X, q['perm_on_csr'], q['cell_ids'],
+                                  q['genes'])
+    else:
+        pipeline.write_h5ad(qpath, X, q['cell_ids'], q['genes'],
+                            encoding=q.get('encoding', 'dense'))
     config = pipeline.mapping_config(
         qpath, stats, markers, out, tmp,
         n_processors=cfg.get('n_processors', 2),
@@ -705,10 +712,26 @@ def _run_one(scratch, stats, markers, q, cfg, tag, cache=None):
         bootstrap_factor=cfg['bootstrap_factor'],
         bootstrap_iteration=cfg.get('bootstrap_iteration', 10),
         rng_seed=cfg.get('rng_seed', 11),
-        normalization=q['normalization'], min_markers=1)
-    res = pipeline.run_mapping(config)
+        normalization=q['normalization'], min_markers=1,
+        max_gb=cfg.get('max_gb', 1.0))
+    trace = scratch / ('trace_' + tag)
+    for f in scratch.glob('trace_%s.*' % tag):
+        f.unlink()
+    os.environ['CELL_TYPE_MAPPER_VERIF_TRACE'] = str(trace)
+    try:
+        res = pipeline.run_mapping(config)
+    finally:
+        os.environ.pop('CELL_TYPE_MAPPER_VERIF_TRACE', None)
+    chunks = []
+    for f in scratch.glob('trace_%s.*' % tag):
+        for line in f.read_text().splitlines():
+            ev = json.loads(line)
+            if ev.get('kind') == 'chunk':
+                chunks.append([int(ev['r0']), int(ev['r1'])])
+        f.unlink()
     err = res['error']
     res = {'ok': res['ok'], 'json': res['json'], 'qpath': qpath,
+           'chunks': sorted(chunks),
            'error': None if err is None
            else '%s: %s' % (type(err).__name__, err)}
     if err is not None:
@@ -834,6 +857,21 @@ def check_pipeline(ctx, d, scratch, cache=None, skipped=None):
     if rel in ('gene-permutation', 'extra-genes'):
         ctx.count('pipeline:%s/%s/%s' % (rel, b['normalization'],
                                          b.get('encoding', 'dense')))
+        # the rows each worker gets (hence its random generator) must not
+        # depend on the gene columns of the file: direct predicate on the
+        # hook trace of chunk borders
+        if len(rb.get('chunks') or []) >= 2:
+            ctx.count('pipeline:%s/multi-chunk' % rel)
+        if rb.get('chunks') and rv.get('chunks') and \
+                rb['chunks'] != rv['chunks']:
+            ctx.violation(
+                'C07/pipeline/%s/chunk-borders-differ' % rel,
+                'the row chunks handed to the workers depend on the gene '
+                'columns of the query: %r for the base, %r for the variant '
+                '(max_gb=%r, n_processors=%r, chunk_size=%r)'
+                % (rb['chunks'], rv['chunks'], cfg.get('max_gb', 1.0),
+                   cfg.get('n_processors'), cfg.get('chunk_size')), d)
+            return
         if U.results_bytes(res_b) != U.results_bytes(res_v):
             ctx.violation(
                 'C07/pipeline/%s/results-differ' % rel,
@@ -935,9 +973,10 @@ def gen_pipeline_cases(ctx, rng, i):
                 'base': base, 'variant': variant, 'config': config,
                 'nontrivial': nontrivial}
 
-    def q(Xq, gq, norm, encoding='dense', dtype='float64'):
+    def q(Xq, gq, norm, encoding='dense', dtype='float64', cell_ids=None):
         return {'X': np.asarray(Xq).tolist(), 'genes': list(gq),
-                'cell_ids': cells, 'normalization': norm,
+                'cell_ids': cells if cell_ids is None else cell_ids,
+                'normalization': norm,
                 'encoding': encoding, 'dtype': dtype}
 
     out = []
@@ -1002,6 +1041,26 @@ def gen_pipeline_cases(ctx, rng, i):
     out.append(case('extra-genes', base_log,
                     q(np.stack(cols, axis=1), gx, 'log2CPM', enc2), c3,
                     nontrivial=bool(drop) or n_add > 0))
+    # c'. gene permutation of a csr query WITHOUT implicit zeros whose
+    # columns were permuted on the sparse matrix (unsorted column indices in
+    # every row); raw and normalised alternate
+    Xf = X + 1.0
+    permc = list(range(g))
+    for _ in range(10):
+        rng.shuffle(permc)
+        if permc != sorted(permc):
+            break
+    gpc = [genes[j] for j in permc]
+    c5 = cfg(round(rng.uniform(0.3, 0.95), 2))
+    if i % 2 == 0:
+        vq = q(Xf, gpc, 'raw', 'csr')
+        bq = q(Xf, genes, 'raw', 'csr')
+    else:
+        vq = q(log2cpm(Xf), gpc, 'log2CPM', 'csr')
+        bq = q(log2cpm(Xf), genes, 'log2CPM', 'csr')
+    vq['perm_on_csr'] = permc
+    out.append(case('gene-permutation', bq, vq, c5,
+                    nontrivial=permc != list(range(g))))
     # d'. WIDE queries: the reference has <= 255 genes, the query 300-600
     # columns, with the markers beyond column 255 (query column positions
     # need a wider integer type than reference positions)
@@ -1028,6 +1087,38 @@ def gen_pipeline_cases(ctx, rng, i):
     out.append(case('gene-permutation', q(Xw, gw, 'raw', encw),
                     q(Xw[:, permw], [gw[j] for j in permw], 'raw', encw),
                     c4))
+    # d''. extra genes under a TIGHT memory budget with several workers:
+    # small max_gb, 2-4 processes, chunk_size far above any cap,
+    # bootstrap_factor < 1, enough cells for several chunks.  Whatever the
+    # implementation derives from max_gb, the rows (and random generator) a
+    # cell is mapped with must not depend on how many gene columns the file
+    # has.
+    n_big = rng.randint(20, 36)
+    Xb = nprng.integers(0, 40, (n_big, g)).astype(float)
+    Xb[:, 0] += 1.0
+    Lb = log2cpm(Xb)
+    cells_b = ['b%d' % e for e in range(n_big)]
+    n_proc = rng.randint(2, 4)
+    rows_cap = rng.randint(2, 5)
+    # a budget that holds about rows_cap rows of the BASE width per worker
+    tight = {'bootstrap_factor': round(rng.uniform(0.3, 0.8), 2),
+             'bootstrap_iteration': rng.choice([5, 10]),
+             'rng_seed': rng.randrange(10**6), 'n_processors': n_proc,
+             'chunk_size': rng.choice([1000, 10000]),
+             'max_gb': rows_cap * n_proc * 8 * g / 1024.0 ** 3 * 1.01}
+    extra_n = rng.choice([1, 2, g, 3 * g, 40])
+    colsb = [Lb[:, j] for j in range(g)]
+    gb = list(genes)
+    for e in range(extra_n):
+        pos = rng.randint(0, len(colsb))
+        vals = nprng.random(n_big) * 16.0
+        vals[nprng.random(n_big) < 0.3] = 0.0
+        colsb.insert(pos, vals)
+        gb.insert(pos, 'tb_extra_%d' % e)
+    out.append(case('extra-genes',
+                    q(Lb, genes, 'log2CPM', 'dense', cell_ids=cells_b),
+                    q(np.stack(colsb, axis=1), gb, 'log2CPM', 'dense',
+                      cell_ids=cells_b), tight))
     # e. negative
     a, b_ = rng.randrange(n), rng.randrange(g)
     if rng.random() < 0.5:
